@@ -153,3 +153,11 @@ fn test_ceil() {
     assert_eq!(Frac::new(1, 1).ceil(), Frac::new(1, 1));
     assert_eq!(Frac::new(13, 12).ceil(), Frac::new(2, 1));
 }
+
+#[cfg(datamatrix_verif)]
+impl Frac {
+    /// The numerator over the fixed denominator 12.
+    pub(crate) fn verif_raw(self) -> C {
+        self.0
+    }
+}
